@@ -62,9 +62,11 @@ def handle (args : List String) : Option String :=
       let toks ← parseToks toks; let nts ← parseNames nts
       if kind != "ok" then some "holds" else
       let goIds ← parseNames ids
-      match firstDup (declaredIds ⟨toks, nts⟩), firstDup goIds with
-      | some i, _ => some s!"violates: two declared symbols get the ID `{printable i}` and no error is reported"
-      | _, some i => some s!"violates: two symbols of the compiled grammar have the ID `{printable i}` and no error is reported"
+      -- judged on the implementation's own IDs (the observable `grammar.Syms[].ID`)
+      let _ := (toks, nts)
+      match firstDup goIds, goIds.find? (fun i => !validIdent i) with
+      | some i, _ => some s!"violates: two symbols of the compiled grammar have the ID `{printable i}` and no error is reported"
+      | _, some i => some s!"violates: a symbol of the compiled grammar has the ID `{printable i}` (empty, blank or not an identifier) and no error is reported"
       | none, none => some "holds"
     | _ => none
   | _ => none
